@@ -14,7 +14,7 @@ REG.entities['Task'] = dict(
     id='str', est='num', eft='num', ast='num', aft='num', allocated_machine_id='any', duration='num',
     est_duration='num', delay_flag='bool', task_status='enum:TaskStatus', pred='list:str',
     delay='opt:ref:DelayModel', delay_offset='num', workflow_offset='num', graph_id='any', flops='num',
-    task_data='num', io='dict:str->num',
+    task_data='num', io='dict:str->num|num',
     ghost_ingest='bool')     # GHOST (no code reads or writes it): the task was created by Cluster._generate_ingest_tasks
 REG.entities['Observation'] = dict(
     name='str', buffer_id='num', cluster_id='str', est='num', ast='optnum', duration='int', demand='num',
